@@ -319,6 +319,23 @@ static inline void ctx_{prefix}_drop({ty} *self) {{
             .push(format!("vtbl_{}", t.to_lowercase()));
     }
 
+    // Traits of each group that provide a function of a given name. If two traits of a group
+    // share a function name, their wrappers are told apart by the trait name.
+    let mut group_fn_traits: HashMap<String, HashMap<String, HashSet<String>>> = HashMap::new();
+
+    for (t, cont, second_half, _, _, funcs) in &group_vtbls {
+        let container_ty = format!("struct {}Container_{}", cont, second_half);
+
+        for f in Vtable::new(t.clone(), funcs, &container_ty)?.functions {
+            group_fn_traits
+                .entry(cont.clone())
+                .or_default()
+                .entry(f.name)
+                .or_default()
+                .insert(t.clone());
+        }
+    }
+
     for (t, cont, second_half, inner, context, funcs) in group_vtbls {
         let vtbl_fields = group_vtbl_fields
             .get(&(cont.clone(), second_half.clone()))
@@ -350,9 +367,18 @@ static inline void ctx_{prefix}_drop({ty} *self) {{
             .copied()
             .unwrap_or_else(|| ContextType::from_name(context.as_str()));
 
+        let clash_prefix = format!("{}_{}", cont, vtbl.name);
+        let fn_traits = group_fn_traits.get(&cont);
+
         let wrappers = vtbl.create_wrappers_c(
             ("container", &format!("vtbl_{}", vtbl.name.to_lowercase())),
-            ("", &|_| Some(&cont)),
+            ("", &|f| {
+                if fn_traits.and_then(|m| m.get(&f.name)).map(|s| s.len() > 1) == Some(true) {
+                    Some(&clash_prefix)
+                } else {
+                    Some(&cont)
+                }
+            }),
             (&container_ty, inner, container_wrappers.is_some()),
             (&context, ctx, context_wrappers.is_some()),
             (&this_ty, &vtbl_fields),
